@@ -146,9 +146,8 @@ def run_case(fn):
 #   stmt: ('expr', e) | ('assign', [target], e) | ('aug', target, op, e) | ('del', target)
 BINOPS = {"add": "+", "mul": "*", "sub": "-", "bor": "|"}
 UNOPS = {"neg": "-", "inv": "~", "not": "not "}
-CMPOPS = {"lt": "<", "gt": ">", "le": "<=", "ge": ">=", "eq": "==", "ne": "!=", "in": "in", "notin": "not in",
-          "is": "is", "isnot": "is not"}
-VARS = ["x", "y", "z"]
+CMPOPS = {"lt": "<", "gt": ">", "le": "<=", "ge": ">=", "eq": "==", "ne": "!=", "in": "in", "notin": "not in"}
+VARS = ["x", "y", "z"]          # plus "r" (result of expression statements)
 
 
 def r_expr(e):
@@ -192,7 +191,12 @@ def r_expr(e):
     if t == "attr":
         return "%s.%s" % (r_prim(e[1]), e[2])
     if t == "minmax":
-        return "%s(%s)" % (e[1], ", ".join(r_expr(x) for x in e[2]))
+        a = ", ".join(r_expr(x) for x in e[2])
+        if e[1].endswith("_t"):
+            return "%s((%s))" % (e[1][:3], a)
+        if e[1].endswith("_l"):
+            return "%s([%s])" % (e[1][:3], a)
+        return "%s(%s)" % (e[1], a)
     if t == "fstr":
         return 'f"' + "".join("{%s}" % r_expr(x) for x in e[1]) + '"'
     raise ValueError(e)
@@ -220,8 +224,6 @@ def r_target(t):
 
 
 def r_stmt(s):
-    if s[0] == "expr":
-        return "r = " + r_expr(s[1])
     if s[0] == "assign":
         return " = ".join([r_target(t) for t in s[1]] + [r_expr(s[2])])
     if s[0] == "aug":
@@ -280,7 +282,7 @@ def t_expr(e):
     if t == "attr":
         return ["T", e[2]] + t_expr(e[1])
     if t == "minmax":
-        return ["X", e[1], str(len(e[2]))] + sum([t_expr(x) for x in e[2]], [])
+        return ["X", e[1][:3], str(len(e[2]))] + sum([t_expr(x) for x in e[2]], [])
     if t == "fstr":
         return ["F", str(len(e[1]))] + sum([t_expr(x) for x in e[1]], [])
     raise ValueError(e)
@@ -314,8 +316,6 @@ def t_target(t):
 
 
 def t_stmt(s):
-    if s[0] == "expr":
-        return ["se"] + t_expr(s[1])
     if s[0] == "assign":
         return ["sa", str(len(s[1]))] + sum([t_target(t) for t in s[1]], []) + t_expr(s[2])
     if s[0] == "aug":
@@ -328,6 +328,8 @@ def t_stmt(s):
 # --------------------------------------------------------------------------------------
 # generation
 class Gen(object):
+    """typed generation: 'obj' positions get expressions whose value is certainly a logging object (so that
+    every operation on them is defined and logged); 'any' positions may also get bools/displays/strings"""
     def __init__(self, rng):
         self.rng = rng
         self.k = 0
@@ -338,37 +340,37 @@ class Gen(object):
             kind = self.rng.choice("TTTFF")
         return ("leaf", kind, self.k)
 
-    def expr(self, d):
-        """random expression of depth <= d whose value is a logging object or any value"""
+    def expr(self, d, obj=True):
         r = self.rng
         if d <= 0 or r.random() < 0.12:
             return self.leaf()
-        kind = r.choice(EXPR_KINDS)
-        return self.node(kind, lambda: self.expr(d - 1))
+        kind = r.choice(OBJ_KINDS if obj else EXPR_KINDS)
+        return self.node(kind, lambda o=True: self.expr(d - 1, o), obj)
 
-    def node(self, kind, sub):
-        """one node of the given kind whose children are produced by sub()"""
+    def node(self, kind, sub, obj=True):
+        """one node of the given kind; sub(o) produces a child (o: must be a logging object)"""
         r = self.rng
+        anyv = (lambda: sub(True)) if obj else (lambda: sub(False))     # branches of and/or/cond
         if kind == "bin":
-            return ("bin", r.choice(sorted(BINOPS)), sub(), sub())
+            return ("bin", r.choice(sorted(BINOPS)), sub(True), sub(True))
         if kind == "un":
-            return ("un", r.choice(sorted(UNOPS)), sub())
-        if kind == "cmp1":
-            return ("cmp", [r.choice(sorted(CMPOPS))], [sub(), sub()])
-        if kind == "cmp2":
-            return ("cmp", [r.choice(sorted(CMPOPS)), r.choice(sorted(CMPOPS))], [sub(), sub(), sub()])
-        if kind == "cmp3":
-            return ("cmp", [r.choice(sorted(CMPOPS)) for _ in range(3)], [sub() for _ in range(4)])
+            return ("un", r.choice(["neg", "inv"]), sub(True))
+        if kind == "not":
+            return ("un", "not", sub(False))
+        if kind in ("cmp1", "cmp2", "cmp3"):
+            n = int(kind[3])
+            ops = [r.choice(OBJ_CMPOPS if obj else sorted(CMPOPS)) for _ in range(n)]
+            return ("cmp", ops, [sub(True) for _ in range(n + 1)])
         if kind == "and":
-            return ("and", sub(), sub())
+            return ("and", anyv(), anyv())
         if kind == "or":
-            return ("or", sub(), sub())
+            return ("or", anyv(), anyv())
         if kind == "cond":
-            return ("cond", sub(), sub(), sub())
+            return ("cond", sub(False), anyv(), anyv())
         if kind == "call":
-            return ("call", sub(), self.args(sub, r.randint(0, 4)))
+            return ("call", sub(True), self.args(sub, r.randint(0, 4)))
         if kind == "mcall":
-            return ("call", ("attr", sub(), r.choice(["m", "p"])), self.args(sub, r.randint(0, 3)))
+            return ("call", ("attr", sub(True), r.choice(["m", "p"])), self.args(sub, r.randint(0, 3)))
         if kind in ("tuple", "list", "set"):
             n = r.randint(1, 3)
             items = []
@@ -376,28 +378,28 @@ class Gen(object):
                 if r.random() < 0.2:
                     items.append(("star", self.leaf("U")))
                 else:
-                    items.append(("pos", sub()))
+                    items.append(("pos", sub(kind == "set")))
             return ("disp", kind, items)
         if kind == "dict":
-            return ("dict", [(sub(), sub()) for _ in range(r.randint(1, 2))])
+            return ("dict", [(sub(True), sub(False)) for _ in range(r.randint(1, 2))])
         if kind == "sub":
-            return ("sub", sub(), sub())
+            return ("sub", sub(True), sub(True))       # (a C-bool index would become a C integer index)
         if kind == "slice":
-            lo = sub() if r.random() < 0.7 else None
-            hi = sub() if r.random() < 0.7 else None
-            st = sub() if r.random() < 0.3 else None
-            return ("slice", sub(), lo, hi, st)
+            lo = sub(True) if r.random() < 0.7 else None
+            hi = sub(True) if r.random() < 0.7 else None
+            st = sub(True) if r.random() < 0.3 else None
+            return ("slice", sub(True), lo, hi, st)
         if kind == "attr":
-            return ("attr", sub(), r.choice(["a", "b"]))
+            return ("attr", sub(True), r.choice(["a", "b"]))
         if kind == "minmax":
-            return ("minmax", r.choice(["min", "max"]), [sub() for _ in range(r.randint(2, 4))])
+            return ("minmax", r.choice(["min", "max"]) + r.choice(["", "", "_t", "_l"]),
+                    [sub(True) for _ in range(r.randint(2, 4))])
         if kind == "fstr":
-            return ("fstr", [sub() for _ in range(r.randint(1, 3))])
+            return ("fstr", [sub(True) for _ in range(r.randint(1, 3))])
         raise ValueError(kind)
 
     def args(self, sub, n):
-        """argument list in a syntactically valid order: CPython accepts positional and * mixed, then
-        keywords and ** mixed (a * after a keyword is legal too)"""
+        """argument list in a syntactically valid order (positional before keywords; * anywhere before **)"""
         r = self.rng
         out = []
         seen_kw = False
@@ -406,74 +408,56 @@ class Gen(object):
         for _ in range(n):
             c = r.random()
             if c < 0.45 and not seen_kw and not seen_dstar:
-                out.append(("pos", sub()))
+                out.append(("pos", sub(False)))
             elif c < 0.6 and not seen_dstar:
                 out.append(("star", self.leaf("U")))
             elif c < 0.85 and names:
-                out.append(("kw", names.pop(0), sub())); seen_kw = True
+                out.append(("kw", names.pop(0), sub(False))); seen_kw = True
             else:
                 out.append(("dstar", self.leaf("D"))); seen_dstar = True
         return out
 
-    def target(self, d, allow_tup=True):
+    def target(self, d, names=True):
         r = self.rng
         c = r.random()
-        sub = lambda: self.expr(d - 1)
-        if c < 0.15:
+        sub = lambda o=True: self.expr(d - 1, o)
+        if c < 0.15 and names:
             return ("name", r.choice(VARS))
-        if c < 0.45:
-            return ("sub", sub(), sub())
-        if c < 0.65:
-            return ("attr", sub(), r.choice(["a", "b"]))
-        if c < 0.8 or not allow_tup or d <= 1:
-            return ("slice", sub(), sub() if r.random() < 0.7 else None, sub() if r.random() < 0.7 else None, None)
-        return ("tup", [self.target(d - 1, allow_tup) for _ in range(r.randint(1, 3))])
+        if c < 0.5:
+            return ("sub", sub(True), sub(True))
+        if c < 0.8:
+            return ("attr", sub(True), r.choice(["a", "b"]))
+        return ("slice", sub(True), sub(True) if r.random() < 0.7 else None, sub(True) if r.random() < 0.7 else None, None)
 
     def stmt(self, d):
         r = self.rng
         c = r.random()
         if c < 0.4:
-            return ("expr", self.expr(d))
+            return ("assign", [("name", "r")], self.expr(d, r.random() < 0.5))
         if c < 0.7:
             n = r.choice([1, 1, 2, 3])
-            tg = [self.target(d - 1) for _ in range(n)]
-            # a tuple target needs an iterable of the right length: logging objects iterate to 2 items,
-            # U leaves are 2-tuples, a display gives any length
-            rhs = self.rhs_for(tg, d)
-            return ("assign", tg, rhs)
+            m = r.choice([0, 0, 1, 2, 3])      # 0: no tuple targets; else the length of every tuple target
+            tg = []
+            for _ in range(n):
+                if m and r.random() < 0.6:
+                    tg.append(("tup", [self.target(d - 2) for _ in range(m)]))
+                else:
+                    tg.append(self.target(d - 1))
+            if not any(t[0] == "tup" for t in tg):
+                return ("assign", tg, self.expr(d - 1, r.random() < 0.5))
+            if m == 2 and r.random() < 0.4:
+                return ("assign", tg, self.expr(d - 1) if r.random() < 0.5 else self.leaf("U"))
+            return ("assign", tg, ("disp", r.choice(["tuple", "list"]), [("pos", self.expr(d - 2, False)) for _ in range(m)]))
         if c < 0.95:
-            return ("aug", self.target(d - 1, allow_tup=False), r.choice(sorted(BINOPS)), self.expr(d - 1))
-        return ("del", self.target(d - 1, allow_tup=False))
-
-    def rhs_for(self, targets, d):
-        lens = set(len(t[1]) for t in targets if t[0] == "tup")
-        nested = any(t[0] == "tup" and any(x[0] == "tup" for x in t[1]) for t in targets)
-        if not lens:
-            return self.expr(d - 1)
-        if len(lens) > 1:
-            # incompatible lengths: make every tuple target have the same length by regenerating
-            n = sorted(lens)[0]
-            for i, t in enumerate(targets):
-                if t[0] == "tup":
-                    targets[i] = ("tup", [self.flat_target(d - 1) for _ in range(n)])
-            nested = False
-        n = [len(t[1]) for t in targets if t[0] == "tup"][0]
-        if nested:
-            # inner tuple targets get 2-item logging objects: force inner length 2
-            for i, t in enumerate(targets):
-                if t[0] == "tup":
-                    targets[i] = ("tup", [(("tup", [self.flat_target(d - 2), self.flat_target(d - 2)]) if x[0] == "tup" else x)
-                                          for x in t[1]])
-        if n == 2 and self.rng.random() < 0.4:
-            return self.expr(d - 1) if self.rng.random() < 0.5 else self.leaf("U")
-        return ("disp", self.rng.choice(["tuple", "list"]), [("pos", self.expr(d - 2)) for _ in range(n)])
-
-    def flat_target(self, d):
-        return self.target(max(d, 1), allow_tup=False)
+            return ("aug", self.target(d - 1), r.choice(sorted(BINOPS)), self.expr(d - 1, False))
+        return ("del", self.target(d - 1, names=False))
 
 
-EXPR_KINDS = ["bin", "bin", "un", "cmp1", "cmp2", "cmp3", "and", "or", "and", "or", "cond", "call", "call", "mcall",
-              "tuple", "list", "set", "dict", "sub", "slice", "attr", "minmax", "fstr"]
+OBJ_CMPOPS = ["lt", "gt", "le", "ge", "eq", "ne"]
+OBJ_KINDS = ["bin", "bin", "un", "cmp1", "cmp2", "cmp3", "and", "or", "and", "or", "cond", "call", "call", "mcall",
+             "sub", "slice", "attr", "minmax", "fstr_no"]
+OBJ_KINDS = [k for k in OBJ_KINDS if k != "fstr_no"]
+EXPR_KINDS = OBJ_KINDS + ["not", "tuple", "list", "set", "dict", "fstr", "cmp2"]
 
 
 def leaves_of(x, acc=None):
@@ -494,17 +478,22 @@ def has_kind(x, kinds):
     return False
 
 
-def enum_small(rng):
+def enum_small(rng, quick=False):
     """every node kind once per child position with a nested non-leaf child, plus all-leaf forms, plus every
     statement form over every target kind"""
     g = Gen(rng)
     out = []
     inner_kinds = ["bin", "and", "or", "cond", "call", "sub", "cmp2", "minmax", "tuple"]
+    L = lambda o=True: g.leaf()
     for kind in sorted(set(EXPR_KINDS)):
         for rep in range(3):
-            out.append(("expr", g.node(kind, g.leaf)))
+            out.append(("expr", g.node(kind, L, False)))
         for ik in inner_kinds:
-            out.append(("expr", g.node(kind, lambda: g.node(ik, g.leaf) if rng.random() < 0.5 else g.leaf())))
+            if quick and rng.random() < 0.5:
+                continue
+            out.append(("expr", g.node(kind, lambda o=True: (g.node(ik, L, True) if (ik != "tuple" or not o) else
+                                                            g.node("attr", L, True))
+                                       if rng.random() < 0.5 else g.leaf(), False)))
     # calls: every ordered argument-kind pattern up to 3 arguments (syntactically valid ones)
     for n in range(0, 4):
         for pat in itertools.product("pskd", repeat=n):
@@ -526,43 +515,68 @@ def enum_small(rng):
     # min/max with 2..4 arguments, leaves and nested
     for which in ("min", "max"):
         for n in (2, 3, 4):
-            out.append(("expr", ("minmax", which, [g.leaf() for _ in range(n)])))
-            out.append(("expr", ("minmax", which, [g.node("bin", g.leaf) for _ in range(n)])))
+            for form in ("", "_t", "_l"):
+                out.append(("expr", ("minmax", which + form, [g.leaf() for _ in range(n)])))
+            out.append(("expr", ("minmax", which, [g.node("bin", L) for _ in range(n)])))
     # targets
     def tgts():
         yield ("name", "x")
         yield ("sub", g.leaf(), g.leaf())
-        yield ("sub", g.node("sub", g.leaf), g.node("bin", g.leaf))
+        yield ("sub", g.node("sub", L), g.node("bin", L))
         yield ("attr", g.leaf(), "a")
-        yield ("attr", g.node("attr", g.leaf), "b")
+        yield ("attr", g.node("attr", L), "b")
         yield ("slice", g.leaf(), g.leaf(), g.leaf(), None)
         yield ("slice", g.leaf(), None, g.leaf(), None)
     for t in tgts():
         out.append(("assign", [t], g.leaf()))
-        out.append(("assign", [t], g.node("bin", g.leaf)))
+        out.append(("assign", [t], g.node("bin", L)))
         for op in sorted(BINOPS):
             out.append(("aug", t, op, g.leaf()))
-        out.append(("aug", t, "add", g.node("call", g.leaf)))
+        out.append(("aug", t, "add", g.node("call", L)))
         if t[0] != "name":
             out.append(("del", t))
     for t1 in tgts():
         for t2 in tgts():
+            if quick and rng.random() < 0.7:
+                continue
             out.append(("assign", [t1, t2], g.leaf()))
             out.append(("assign", [("tup", [t1, t2])], ("disp", "tuple", [("pos", g.leaf()), ("pos", g.leaf())])))
             out.append(("assign", [("tup", [t1, t2])], g.leaf()))
             out.append(("assign", [("tup", [t1, t2])], g.leaf("U")))
     for t1 in tgts():
         t2 = ("sub", g.leaf(), g.leaf()); t3 = ("attr", g.leaf(), "a")
-        out.append(("assign", [t1, t2, t3], g.node("bin", g.leaf)))
+        out.append(("assign", [t1, t2, t3], g.node("bin", L)))
         out.append(("assign", [("tup", [t1, t2, t3])], ("disp", "list", [("pos", g.leaf()) for _ in range(3)])))
-        out.append(("assign", [("tup", [t1, t2]), ("tup", [t3, t1])], ("disp", "tuple", [("pos", g.leaf()) for _ in range(2)])))
+        out.append(("assign", [("tup", [t1, t2]), ("tup", [t3, ("sub", g.leaf(), g.leaf())])],
+                    ("disp", "tuple", [("pos", g.leaf()) for _ in range(2)])))
+    # in-place targets whose object is itself an attribute/subscript chain
+    for t in [("attr", ("sub", g.leaf(), g.leaf()), "a"), ("attr", ("attr", ("attr", g.leaf(), "a"), "b"), "a"),
+              ("sub", ("attr", g.leaf(), "a"), g.leaf()), ("attr", ("call", g.leaf(), []), "a"),
+              ("attr", ("sub", ("attr", g.leaf(), "b"), g.leaf()), "a"), ("attr", ("name", "x"), "a"),
+              ("attr", ("attr", ("name", "x"), "b"), "a"), ("sub", ("name", "x"), ("name", "y")),
+              ("sub", ("sub", g.leaf(), g.leaf()), g.leaf())]:
+        out.append(("aug", t, "add", g.leaf()))
+    # cascades mixing plain and tuple targets over a display
+    for tl in [[("name", "x"), ("tup", [("sub", g.leaf(), g.leaf()), ("attr", g.leaf(), "a")])],
+               [("tup", [("sub", g.leaf(), g.leaf()), ("attr", g.leaf(), "a")]), ("sub", g.leaf(), g.leaf())],
+               [("sub", g.leaf(), g.leaf()), ("tup", [("sub", g.leaf(), g.leaf()), ("attr", g.leaf(), "a")]), ("attr", g.leaf(), "b")]]:
+        out.append(("assign", tl, ("disp", "tuple", [("pos", g.leaf()), ("pos", g.leaf())])))
+        out.append(("assign", tl, g.leaf()))
+    # witnesses of the two front-end findings
+    for ops in (["notin", "lt"], ["in", "lt"], ["in", "notin"]):
+        out.append(("expr", ("un", "not", ("cmp", list(ops), [g.leaf("F"), g.leaf("F"), g.leaf("T")]))))
+        out.append(("expr", ("un", "not", ("cmp", list(ops), [g.leaf("T"), g.leaf("T"), g.leaf("T")]))))
+    for ops in (["gt", "in"], ["in", "notin"], ["lt", "notin", "eq"]):
+        for bo in ("and", "or"):
+            out.append(("expr", ("cmp", list(ops), [g.leaf("T"), (bo, g.leaf("T"), g.leaf("T"))] +
+                                 [g.leaf("T") for _ in ops[1:]])))
     # swaps through names
     out.append(("assign", [("tup", [("name", "x"), ("name", "y")])], ("disp", "tuple", [("pos", ("name", "y")), ("pos", ("name", "x"))])))
     out.append(("assign", [("tup", [("name", "x"), ("name", "y"), ("name", "z")])],
                 ("disp", "tuple", [("pos", ("name", "z")), ("pos", ("name", "x")), ("pos", ("name", "y"))])))
     out.append(("assign", [("tup", [("name", "x"), ("sub", ("name", "x"), g.leaf())])],
                 ("disp", "tuple", [("pos", g.leaf()), ("pos", ("name", "x"))])))
-    return out
+    return [(("assign", [("name", "r")], s[1]) if s[0] == "expr" else s) for s in out]
 
 
 def valid_args(pat):
@@ -616,7 +630,7 @@ def build_and_run(workdir, stmts, chunk=150, jobs=6, tag="c20m"):
         src = module_source(stmts[ci:ci + chunk], ci)
         with open(os.path.join(workdir, name + "_py.py"), "w") as f:
             f.write(src)
-        specs.append(dict(name=name, source=src, workdir=workdir))
+        specs.append(dict(name=name, source=src, workdir=workdir, cflags=["-O0"]))
         names.append((name, ci, min(len(stmts), ci + chunk)))
     built = cybuild.build_many(specs, jobs=jobs)
     impl = [None] * len(stmts)
@@ -639,3 +653,193 @@ def build_and_run(workdir, stmts, chunk=150, jobs=6, tag="c20m"):
             if name in r["json"]:
                 impl[i] = r["json"][name][j]
     return impl, orac
+
+
+# --------------------------------------------------------------------------------------
+# the check
+# flags to flip after the corresponding proposed_fixes/C20-*.diff is applied to /repo
+INPLACE_FIXED = os.environ.get("C20_INPLACE_FIXED", "0") == "1"
+NOTFLIP_FIXED = os.environ.get("C20_NOTFLIP_FIXED", "0") == "1"
+BOOLOPDUP_FIXED = os.environ.get("C20_BOOLOPDUP_FIXED", "0") == "1"
+FLAG_CLASSES = [  # (index in the model's flag vector, finding class)
+    (0, "minmax_first_argument_evaluated_last"),
+    (1, "method_lookup_after_arguments"),
+    (2, "inplace_attribute_base_evaluated_twice"),
+    (3, "cascaded_unpacking_assigns_columnwise"),
+]
+REWRITE_CLASSES = ["not_of_cascaded_in_flips_operator", "cascaded_in_boolop_operand_evaluated_twice"]
+
+
+def asis_flags():
+    return [1 if MINMAX_FIXED else 0, 0, 1 if INPLACE_FIXED else 0, 0]
+
+
+def asis_rewrites():
+    return [not NOTFLIP_FIXED, not BOOLOPDUP_FIXED]
+
+
+def front_end(x, rw):
+    """two tree rewrites of the compiler front end, applied to the model's input so that the model of the
+    generated code sees the tree the code generator sees:
+    rw[0]  Optimize.ConstantFolding._handle_NotNode:  not (a in b <cascade>)  ->  a not in b <cascade>
+           (the first operator is flipped although a cascade follows);
+    rw[1]  a and/or node that is the shared middle operand of a cascade continuing with in / not in is
+           re-created by BoolBinopNode.coerce_to and therefore evaluated once per comparison:
+           a < (b or c) in d   behaves like   (a < (b or c)) and ((b or c) in d)."""
+    if isinstance(x, list):
+        return [front_end(y, rw) for y in x]
+    if not isinstance(x, tuple):
+        return x
+    x = tuple(front_end(y, rw) for y in x)
+    if rw[0] and x and x[0] == "un" and x[1] == "not" and x[2][0] == "cmp" and len(x[2][1]) >= 2 \
+            and x[2][1][0] in ("in", "notin"):
+        c = x[2]
+        x = ("cmp", [("notin" if c[1][0] == "in" else "in")] + list(c[1][1:]), c[2])
+    if rw[1] and x and x[0] == "cmp":
+        ops, es = x[1], x[2]
+        for i in range(1, len(ops)):
+            if ops[i] in ("in", "notin") and es[i][0] in ("and", "or"):
+                left = ("cmp", list(ops[:i]), list(es[:i + 1]))
+                right = front_end(("cmp", list(ops[i:]), list(es[i:])), [False, True])
+                return ("and", left, right)
+    return x
+
+
+def dedup_bool(log):
+    """a truth test repeated on the same value with nothing in between is CPython-version specific
+    (jump threading of nested and/or/not up to 3.11, none in 3.12): not part of the property"""
+    out = []
+    for e in log:
+        if out and e == out[-1] and e.startswith("bool("):
+            continue
+        out.append(e)
+    return out
+
+
+def parse_model(line):
+    parts = [p.strip() for p in line.split("|")]
+    if line.startswith("!ERR") or len(parts) < 3:
+        return None
+    return [parts[0].split() if parts[0] else [], parts[1], parts[2], len(parts) > 3]
+
+
+def stratum_of(s):
+    if s[0] == "assign":
+        if len(s[1]) == 1 and s[1][0] == ("name", "r"):
+            e = s[2]
+            return "expr/" + (e[1] if e[0] in ("disp",) else e[0])
+        kinds = "+".join(sorted(set(t[0] for t in s[1])))
+        return "assign%d/%s" % (min(len(s[1]), 3), kinds)
+    if s[0] == "aug":
+        return "aug/" + s[1][0]
+    return "del/" + s[1][0]
+
+
+def model_lines(stmts, flags, rw=None):
+    rw = asis_rewrites() if rw is None else rw
+    return ["run %d %d %d %d %s" % (flags[0], flags[1], flags[2], flags[3], " ".join(t_stmt(front_end(s, rw))))
+            for s in stmts]
+
+
+def classify(model, s, base_out):
+    """finding class of a statement = the first modelled deviation whose repair changes the model's trace"""
+    flags = asis_flags()
+    rw = asis_rewrites()
+    for i, name in enumerate(REWRITE_CLASSES):
+        if rw[i]:
+            rw2 = list(rw); rw2[i] = False
+            if model.batch(model_lines([s], flags, rw2))[0] != base_out:
+                return name
+    for idx, name in FLAG_CLASSES:
+        if flags[idx]:
+            continue
+        f2 = list(flags); f2[idx] = 1
+        out = model.batch(model_lines([s], f2))[0]
+        if out != base_out:
+            return name
+    return "order_differs_from_cpython"
+
+
+def check_stmts(ctx, stmts, tag):
+    model = ctx.model("evalorder")
+    impl, orac = build_and_run(ctx.workdir, stmts, tag=tag, jobs=4)
+    flags = asis_flags()
+    m_asis = model.batch(model_lines(stmts, flags))
+    m_ref = model.batch(["ref " + " ".join(t_stmt(s)) for s in stmts])
+    nskip = 0
+    for s, a, o, ma, mr in zip(stmts, impl, orac, m_asis, m_ref):
+        src = r_stmt(s)
+        inp = {"stmt": src, "ast": s}
+        if o[1].startswith("EXC"):
+            nskip += 1          # CPython itself rejects the generated statement: not a case
+            continue
+        ctx.case(stratum_of(s), inp, sig=src)
+        if a[0] is None:
+            ctx.corr_break("build", inp, a[1][:600], "module builds")
+            continue
+        pa, pr = parse_model(ma), parse_model(mr)
+        if pa is None or pr is None or pa[3]:
+            ctx.corr_break("model-run", inp, a, [ma, mr])
+            continue
+        # (1) the reference semantics is CPython's order (modulo repeated adjacent truth tests)
+        if dedup_bool(pr[0]) != dedup_bool(o[0]) or pr[1] != o[1]:
+            ctx.corr_break("reference-vs-cpython", inp, o, pr[:2])
+        # (2) tie: the model of the generated code reproduces the compiled module's log exactly
+        tie = (pa[0] == a[0] and pa[1] == a[1])
+        if not tie:
+            ctx.corr_break("gen-model-vs-compiled", inp, a, pa[:2])
+        # (3) property oracle: compiled module vs CPython
+        if dedup_bool(a[0]) != dedup_bool(o[0]) or a[1] != o[1]:
+            klass = classify(model, s, ma) if tie else "order_differs_from_cpython"
+            ctx.fail(klass, inp, a, o, note="model(as is): %s" % ma[:300])
+        else:
+            # (4) every leaf at most once (if the logs agree this can only fail when CPython does the same)
+            lv = [e for e in a[0] if e.startswith("L") and e[1:].isdigit()]
+            if len(lv) != len(set(lv)):
+                ctx.fail("leaf_evaluated_twice", inp, a, o)
+    if nskip:
+        ctx.note("%s: %d generated statements rejected by CPython itself (skipped)" % (tag, nskip))
+
+
+def gen_random(rng, count, depth):
+    g = Gen(rng)
+    out, seen = [], set()
+    while len(out) < count:
+        g.k = 0
+        s = g.stmt(depth)
+        src = r_stmt(s)
+        if src in seen or len(leaves_of(s)) < 2 or len(src) > 900:
+            continue
+        seen.add(src)
+        out.append(s)
+    return out
+
+
+def run(ctx):
+    quick = ctx.tier == "quick"
+    small = enum_small(ctx.rng, quick)
+    check_stmts(ctx, small, "c20e")
+    ctx.extra.setdefault("exhaustive_domains", []).append(
+        "call argument-kind patterns (positional/keyword/*/**) of length <= 3, plain and method calls: all %d"
+        % (2 * sum(1 for n in range(4) for p in itertools.product("pskd", repeat=n) if valid_args(p))))
+    nrand = 120 if quick else 3000
+    rnd = gen_random(ctx.rng, nrand // 3, 2) + gen_random(ctx.rng, nrand // 3, 3) + gen_random(ctx.rng, nrand - 2 * (nrand // 3), 4)
+    check_stmts(ctx, rnd, "c20r")
+
+
+def replay(ctx, obj):
+    def tup(x):
+        return tuple(tup(y) for y in x) if isinstance(x, list) else x
+    s = tup(obj["input"]["ast"])
+    # lists inside the AST (argument lists, operator lists) were tuples-of-lists originally: re-list them
+    def fix(x):
+        if isinstance(x, tuple) and x and isinstance(x[0], str):
+            return tuple(fix(y) for y in x)
+        if isinstance(x, tuple):
+            return [fix(y) for y in x]
+        return x
+    s = fix(s)
+    impl, orac = build_and_run(ctx.workdir, [s], tag="c20replay")
+    print("statement:", r_stmt(s))
+    print("compiled :", impl[0])
+    print("CPython  :", orac[0])
